@@ -88,7 +88,7 @@ CHECKS.update({
 
 CHECKS.update({
  "C12": ("metamorphic property testing (brush against itself, bash as a validity guard): full parent-state dump before and after a generated mutator sequence runs in a subshell context must be equal",
-         "5k (quick) / 80k (thorough) sequences of 1-6 state mutators out of ~70 (every kind of assignment, unset/export/readonly, functions, set/shopt, aliases, traps, cd/pushd, positional parameters, exec redirections, exit/return/break/continue, completion specs; rarely umask/ulimit) in 16 subshell contexts (( ), $( ), backquotes, pipeline stages, background job, <( ), >( ), coproc, function in ( ), nested, and the same inside parent loops), optionally with concurrent parent activity; declare -p/-f, $-, set -o, shopt, alias, trap -p, pwd, dirs, umask, ulimit -a, $@, complete -p and an external child's view of descriptors, umask, rlimits, cwd and environment compared before/after, and the parent's own marker commands must all run. Exploration.",
+         "5k (quick) / 80k (thorough) sequences of 1-6 state mutators out of ~70 (every kind of assignment, unset/export/readonly, functions, set/shopt, aliases, traps, cd/pushd, positional parameters, exec redirections, exit/return/break/continue, completion specs; rarely umask/ulimit) in 18 subshell contexts (( ), $( ), backquotes, pipeline stages as a group and one mutator per stage, background job as a group and one per mutator, <( ), >( ), coproc, function in ( ), nested, and the same inside parent loops), optionally with concurrent parent activity; declare -p/-f, $-, set -o, shopt, alias, trap -p, pwd, dirs, umask, ulimit -a, $@, complete -p and an external child's view of descriptors, umask, rlimits, cwd and environment compared before/after, and the parent's own marker commands must all run. Exploration.",
          "bash 5.2.15 used as a guard only: a failure is reported only when bash keeps its own dumps equal on the same script; names the shell itself changes (RANDOM, _, PIPESTATUS, BASH_CMDS ...) are filtered from the dump", "DESIGN.md §3 C12 (design) and §8 (as built)"),
 })
 
